@@ -14,14 +14,21 @@ import (
 type Gate struct {
 	mu      sync.Mutex
 	armed   string // "", "write", "read"
-	parked  chan struct{}
+	want    int    // number of calls to park
+	got     int
+	parked  chan struct{} // closed when `want` calls are parked
 	release chan struct{}
 }
 
-func (g *Gate) Arm(kind string) {
+// Arm parks the next call of the given kind.
+func (g *Gate) Arm(kind string) { g.ArmN(kind, 1) }
+
+// ArmN parks the next n calls of the given kind (commands of n different sessions).
+func (g *Gate) ArmN(kind string, n int) {
 	g.mu.Lock()
 	defer g.mu.Unlock()
 	g.armed = kind
+	g.want, g.got = n, 0
 	g.parked = make(chan struct{})
 	g.release = make(chan struct{})
 }
@@ -53,14 +60,17 @@ func (g *Gate) Release() {
 
 func (g *Gate) pass(kind string) {
 	g.mu.Lock()
-	if g.armed != kind {
+	if g.armed != kind || g.got >= g.want {
 		g.mu.Unlock()
 		return
 	}
-	g.armed = ""
-	p, r := g.parked, g.release
+	g.got++
+	r := g.release
+	if g.got == g.want {
+		g.armed = ""
+		close(g.parked)
+	}
 	g.mu.Unlock()
-	close(p)
 	<-r
 }
 
